@@ -32,15 +32,34 @@ def Key.lt (a b : Key) : Bool := decide (a.p < b.p) || (a.p == b.p && !a.d && b.
               AssembleWithTimestamp does not set `End`);
     * `rst` : RST only, seq 1001, no payload (classic only) — `end=true` in getConnection: ignored when
               the connection does not exist, queued when it exists but has not started, else delivered
-              with `End`. -/
+              with `End`;
+    * `late ts` : FIN, seq 1101, payload "late", seen at time `ts` — an OUT-OF-ORDER segment: it lies
+              behind the gap 1001..1100 whatever the connection has seen, so it is always QUEUED (with
+              its timestamp) and only a Flush* call releases it (one callback, `End` ⇒ close).
+    Every other packet is seen at time `Kind.ts0`. -/
 inductive Kind where
   | syn | fin | rst
+  | late (ts : Nat)
   deriving DecidableEq, Repr, Inhabited
+
+/-- time at which syn / fin / rst packets are seen -/
+def Kind.ts0 : Nat := 5
+
+/-- capture timestamp of a packet (small naturals; only their order matters) -/
+def Kind.ts : Kind → Nat
+  | .late ts => ts
+  | _ => Kind.ts0
+
+def Kind.isLate : Kind → Bool
+  | .late _ => true
+  | _ => false
 
 /-- One item of a thread's program. -/
 inductive Op where
   | pkt (k : Key) (kind : Kind)   -- Assemble(packet of key k)
   | flush                         -- FlushAll()
+  | flushold (T : Nat) (c : Nat)  -- tcpassembly: FlushWithOptions{T, CloseAll: c ≠ 0} (c ≠ 0: FlushOlderThan(T));
+                                  -- reassembly:  FlushWithOptions{T, TC: c}
   deriving DecidableEq, Repr, Inhabited
 
 /-- Observable events (the order is the total order of the controlled schedule).
